@@ -171,11 +171,8 @@ def _all_paths_from(fn, start, blocks):
 def check_restart_replaces(ctx, P, start, variant, rule="F9"):
     """a fresh (non-repeating) start for an active key purges the earlier chain before scheduling"""
     fn = P.one(start)
-    idx = None
-    for l in range(1, fn.argc + 1):
-        if fn.locals[l].get("name") == "repeating":
-            idx = l
-    ctx.require(idx is not None, rule + ".anchor", fn.name + "|repeating", fn.loc(), "parameter `repeating` found")
+    idx = rerun_flag_param(P, fn)
+    ctx.require(idx is not None, rule + ".anchor", fn.name + "|repeating", fn.loc(), "the parameter that receives exec_command's rerun flag was identified")
     if idx is None:
         return
     adds = calls_to(fn, "Zeroconf::add_retransmission")
